@@ -279,8 +279,8 @@ fn exec(scn: &Scn, ctx: &mut Ctx) -> Verdict {
                     invalid!("byte positions near the limit are not representable for this type");
                 }
                 let lb = l * bsu;
-                let ty = 1 + op.ty % 2;
                 let p = op.p;
+                let ty = if p > u64::MAX as u128 { 2 } else { 1 + op.ty % 2 };
                 if p > lb + 4 * bsu + 256 {
                     invalid!("seek target far beyond");
                 }
